@@ -45,8 +45,9 @@ def handleExpr (j : Json) : Except String Json := do
     | [k, t] => pure ((← jStr k), (← jStr t))
     | _ => throw "line") (← field j "exprLines")
   let jl ← (match (fieldD j "jl" (.bool false)) with | .bool b => pure b | _ => throw "jl")
+  let py ← (match (fieldD j "py" (.bool false)) with | .bool b => pure b | _ => throw "py")
   let env ← jAssoc jRat (fieldD j "env" (.arr #[]))
-  match Mxl.C07Expr.runLines jl lines env.reverse [] with
+  match Mxl.C07Expr.runLines jl py lines env.reverse [] with
   | .error (.unsupported k) => pure (Json.mkObj [("unsupported", .str k)])
   | .error (.noValue k) => pure (Json.mkObj [("noValue", .str k)])
   | .ok (e, flags) =>
